@@ -77,6 +77,7 @@ pub fn run_history(spec_flags: &Flags, prog: &Arc<Program>, hist: &[Op], stats: 
     let mut sess = Sess::new(prog.clone());
     let mut world = World::new(prog);
     let mut mon = Monitor::new(spec_flags.clone(), prog.clone());
+    mon.bind(&sess);
     let mut ro = RunOut { viol: None, reused: 0, reexec: 0 };
     sess.db.cx_arc().take_log();
     let n_hist = hist.len();
